@@ -220,14 +220,125 @@ def run(ctx):
                 want = base_mod.get((key, names[0]))
                 if want is not None and dg != want:
                     rep.fail("pred", case, {"why": f"package of {names[0]} exported mid-history differs from its fresh single-call package"})
+    # programs: exporting early must not change what is exported later; bad new parents of elaborated children are refused
+    hows = ["never", "elaborate", "to_proto", "netlist"]
+    res = dict(zip(hows, common.pmap_fresh(program_early_export, hows)))
+    for how in hows[1:]:
+        rep.count("programs", "early:" + how)
+        for part in ("gen", "renamed"):
+            if res[how][part] != res["never"][part]:
+                rep.fail("pred", {"stream": "programs", "case": {"early": how, "part": part}},
+                         {"why": f"the package depends on an earlier {how}: {part}", "with": res[how][part], "without": res["never"][part]})
+    bjobs2 = [{"first": f, "fault": x} for x in ("flat_names", "extra_member", "both") for f in ("never", "elaborate", "to_proto")]
+    bres = common.pmap_fresh(program_bad_new_parent, bjobs2)
+    for j, r in zip(bjobs2, bres):
+        rep.count("programs", json.dumps(j))
+        if r != "raised":
+            rep.fail("pred", {"stream": "programs", "case": j}, {"why": "an ill-connected new parent of a child (fresh or already elaborated) was exported", "result": r})
     rep.extra["designs"] = len(cases_d)
     rep.extra["histories"] = nh
     if jobs:
         rep.sample({"ops": next(j["ops"] for j in jobs if j["role"] == "history"), "modules": [m["name"] for m in jobs[0]["design"]["modules"]]})
 
 
+
+# ---------------------------------------------------------------------------------------------- programs
+
+def program_early_export(how):
+    """A generator that exports / netlists / elaborates its own cell before returning it (the parameter suffix is appended to the
+    cell's name afterwards), and a module that is renamed between two exports.  -> digests of the final packages"""
+    import io
+    import hashlib
+
+    @h.paramclass
+    class CellParams:
+        n = h.Param(dtype=int, desc="n", default=2)
+
+    @h.generator
+    def Cell(p: CellParams) -> h.Module:
+        m = h.Module(name="Cell")
+        m.a, m.b = h.Inout(), h.Inout()
+        m.rs = h.InstanceArray(h.R(r=1), p.n)(p=m.a, n=m.b)
+        if how == "to_proto":
+            h.to_proto(m)
+        elif how == "netlist":
+            h.netlist(m, io.StringIO(), fmt="spice")
+        elif how == "elaborate":
+            h.elaborate(m)
+        return m
+
+    out = {}
+    try:
+        top = h.Module(name="Top")
+        top.x, top.y = h.Signals(2)
+        top.c = Cell(n=3)(a=top.x, b=top.y)
+        top.c2 = Cell(n=4)(a=top.x, b=top.y)
+        pkg = h.to_proto(top)
+        out["gen"] = [m.name for m in pkg.modules] + [hashlib.md5(pkg.SerializeToString(deterministic=True)).hexdigest()]
+    except Exception as ex:  # noqa
+        out["gen"] = "raise " + common.errstr(ex)
+    try:
+        mod = h.Module(name="Before")
+        mod.p, mod.q = h.Inout(), h.Inout()
+        mod.r = h.R(r=1)(p=mod.p, n=mod.q)
+        if how != "never":
+            h.to_proto(mod) if how != "netlist" else h.netlist(mod, io.StringIO(), fmt="spice")
+        mod.name = "After"
+        par = h.Module(name="Par")
+        par.s, par.t = h.Signals(2)
+        par.i = mod(p=par.s, q=par.t)
+        pkg = h.to_proto(par)
+        out["renamed"] = [m.name for m in pkg.modules] + [hashlib.md5(pkg.SerializeToString(deterministic=True)).hexdigest()]
+    except Exception as ex:  # noqa
+        out["renamed"] = "raise " + common.errstr(ex)
+    return out
+
+
+def program_bad_new_parent(job):
+    """A new parent that connects an (already elaborated / exported, or fresh) child by its *flattened* port names, or with an
+    anonymous bundle that has an extra member: must be refused exactly as for the fresh child."""
+    first = job["first"]
+    @h.bundle
+    class Link:
+        tx = h.Signal()
+        rx = h.Signal()
+
+    child = h.Module(name="Child")
+    child.link = Link(port=True)
+    child.r = h.R(r=1)(p=child.link.tx, n=child.link.rx)
+    if first == "elaborate":
+        h.elaborate(child)
+    elif first == "to_proto":
+        h.to_proto(child)
+    par = h.Module(name="BadParent")
+    par.a, par.b, par.c = h.Signals(3)
+    if job["fault"] == "flat_names":
+        par.i = child(link_tx=par.a, link_rx=par.b)
+    elif job["fault"] == "extra_member":
+        par.i = child(link=h.AnonymousBundle(tx=par.a, rx=par.b, zz=par.c))
+    else:
+        par.i = child(link=h.AnonymousBundle(tx=par.a, rx=par.b), link_tx=par.c)
+    try:
+        h.to_proto(par)
+        return "returned"
+    except Exception as ex:  # noqa
+        return "raised"
+
+
 def replay(ctx, rp):
     c = rp["case"]["case"]
+    if rp["case"].get("stream") == "programs":
+        if "early" in c:
+            a, b = common.pmap_fresh(program_early_export, ["never", c["early"]])
+            print(json.dumps({"never": a, c["early"]: b}))
+            bad = a[c["part"]] != b[c["part"]]
+        else:
+            (r,) = common.pmap_fresh(program_bad_new_parent, [c])
+            print(r)
+            bad = r != "raised"
+        if bad:
+            print(f"VIOLATION property=C07 replay={rp.get('_path')}")
+        return 1 if bad else 0
     (b,) = common.pmap_fresh(run_history, [{"design": c["design"], "style": c["style"], "ops": []}])
     (r,) = common.pmap_fresh(run_history, [c])
     print(json.dumps({"fresh": b, "history": r}))
